@@ -41,7 +41,7 @@ struct Config {
     bool pct_mode = false;
     std::vector<uint64_t> pct_points; // yield indices at which the running
                                       // thread's priority drops below all
-    uint64_t step_cap = 20000000;
+    uint64_t step_cap = 2000000000ULL; // liveness net; the parent's watchdog is the tighter one
 };
 
 struct Stats {
